@@ -953,10 +953,21 @@ def check_iterator(fx, rep, rule):
             st2.effects = tuple(fc.rewrite(e_, prw) for e_ in st.effects)
             res2.append((st2, (k, fc.rewrite(v, prw))))
         res = res2
+    bnext = fx.bodies[p]
+    params_ = {prm["pat"]["name"] for prm in bnext["params"] if prm.get("pat") and prm["pat"].get("k") == "Bind"} | {"self"}
+    locals_ = set()
+    for n_ in F.walk(bnext["body"]):
+        if n_.get("k") == "Block":
+            for s_ in n_["stmts"]:
+                if s_["k"] == "Let":
+                    for q_ in F.walk(s_["pat"]):
+                        if q_.get("k") == "Bind":
+                            locals_.add(q_["name"])
     for st, (k, v) in res:
         a = fc.assignment(st.conds)
         e = a.get(("empty", mk_field(slf, SLICE)))
-        effs = [x for x in st.effects if x[0] == "assign"]
+        # (an assignment to a local of `next` - `let record; (record, self.slice) = ..` - is not an effect on the iterator)
+        effs = [x for x in st.effects if x[0] == "assign" and not (x[1][0] == "place" and x[1][1] in locals_ and x[1][1] not in params_)]
         desc.append("%s -> %s ; %s" % (S.cstr(st.conds), S.tstr(v)[:80], [S.tstr(x)[:120] for x in effs]))
         r = call(rec, mk_field(slf, SLICE))
         if e is True:
